@@ -753,6 +753,8 @@ def _templates(max_depth, max_stmts, nlifts):
                 l, r = g("int", d - 1, scope), g("int", d - 1, scope)
                 return mul(l, r, scope) if op == "*" else ["bin", op, l, r]
             if k == "pow":
+                if chance(35):
+                    return negpow(scope, chance(50))
                 return ["bin", "**", g("int", min(d - 1, 1), scope), c(draw(I(0, MAX_EXP)))]
             if k == "unary":
                 return ["unary", pick(["-", "-", "+"]), g("int", d - 1, scope)]
@@ -779,8 +781,28 @@ def _templates(max_depth, max_stmts, nlifts):
                 return ["filter", "int", ["filter", "round", g("float", d - 1, scope), [], []], [], []]
             return ["paren", g("int", d - 1, scope)]
 
+        def negpow(scope, want_float):
+            """a base that folds to a negative number under ** with a small constant exponent (mostly even): once the
+            exponent is lifted, the folded negative constant must stay one operand (F28, also for floats)"""
+            num = (lambda: c(pick([0.5, 1.5, 2.5, 3.25, 2.0]))) if want_float else (lambda: c(draw(I(1, 9))))
+            k = pick(["neg", "neg", "sub", "zero_sub", "mul"])
+            if k == "neg":
+                base = ["unary", "-", num()]
+            elif k == "sub":
+                base = ["bin", "-", num(), c(pick([10.5, 12.0]) if want_float else draw(I(10, 20)))]
+            elif k == "zero_sub":
+                base = ["bin", "-", c(0.0 if want_float else 0), num()]
+            else:
+                base = ["bin", "*", ["unary", "-", num()], num()]
+            if chance(30):
+                base = ["paren", base]
+            exp = c(pick([2, 2, 4, 3, 2]))
+            return ["bin", "**", base, exp]
+
         def g_float(d, scope):
-            k = pick(["div", "div", "arith", "floatf", "unary", "round", "cond", "pow", "paren"])
+            k = pick(["div", "div", "arith", "floatf", "unary", "round", "cond", "pow", "paren", "negpow"])
+            if k == "negpow":
+                return negpow(scope, True)
             if k == "div":
                 return ["bin", "/", g("num", d - 1, scope), g("num", d - 1, scope)]
             if k == "arith":
@@ -1029,6 +1051,8 @@ def _templates(max_depth, max_stmts, nlifts):
         def out_expr(d, scope):
             if chance(12):
                 return escsens(scope)
+            if chance(7):
+                return negpow(scope, chance(60))
             return g(pick(["str", "str", "str", "any", "int", "float", "bool", "list", "markup", "num"]), d, scope)
 
         def stmt(depth, scope, conditional, in_macro):
@@ -1044,7 +1068,10 @@ def _templates(max_depth, max_stmts, nlifts):
                 return ["out", out_expr(d, scope)]
             if k == "set":
                 ty = pick(["int", "str", "float", "str", "any", "bool", "list"])
-                e = escsens(scope) if ty == "str" and chance(25) else g(ty, d, scope)
+                if ty in ("int", "float") and chance(15):
+                    e = negpow(scope, ty == "float")
+                else:
+                    e = escsens(scope) if ty == "str" and chance(25) else g(ty, d, scope)
                 name = pick(VARS)
                 bind(scope, name, ty, e, conditional)
                 return ["set", name, e]
